@@ -101,5 +101,14 @@ func streamProgs(ctx *Ctx) *Result {
 			res.Sample(src)
 		}
 	})
+	// wide programs: slots and constant indices beyond the one-byte operand range
+	parallel(ctx.Pool, ctx.Seed+11, ctx.N(60), func(i int, r *rand.Rand, d *Driver) {
+		src := WideProgram(r)
+		line := diffParseRun(res, d, []byte(src), true)
+		res.Count("wide", 1)
+		if strings.HasPrefix(line, "ok=1") {
+			res.Nontrivial(field(line, "dump"))
+		}
+	})
 	return res
 }
